@@ -110,11 +110,16 @@ fn data_twins(front: Front, reg: Reg, flip_bit: Option<usize>, rng: &mut Prng, c
     let seed = rng.next_u64();
     let start_up = *rng.pick(&[0u32, 5, 0xFFFE, 0x1_FFFE]);
     let start_down: Option<u32> = *rng.pick(&[None, Some(3), Some(0xFFFE), Some(70_000)]);
+    // ADR counter to lose: around the ADRACKReq limit and the first back-off step
+    // (in "adr mode" no downlink is accepted before the insertion, so the counter survives)
+    let adr_mode = rng.chance(1, 4);
+    let start_adr = if adr_mode { *rng.pick(&[62u32, 63, 64, 65, 94, 95, 96, 127]) } else { 0 };
     let mk = |r: &mut Prng| -> Option<(Dev, Net)> {
         let opts = DevOpts { rng_seed: Some(seed ^ 0xA5), ..Default::default() };
         abp_dev(front, reg, r, &opts, |sj| {
             sj["fcnt_up"] = json!(start_up);
             sj["fcnt_down"] = json!(start_down);
+            sj["adr_ack_cnt"] = json!(start_adr);
         })
         .ok()
     };
@@ -122,6 +127,10 @@ fn data_twins(front: Front, reg: Reg, flip_bit: Option<usize>, rng: &mut Prng, c
     let mut rb = Prng::new(seed);
     let (mut a, net) = mk(&mut ra)?;
     let (mut b, _) = mk(&mut rb)?;
+    // a data rate from which the ADR back-off can step down (ADRACKReq needs a lower rate)
+    let dr = *rng.pick(&crate::c12::uplink_drs(reg));
+    a.set_datarate(dr);
+    b.set_datarate(dr);
     let mut last = start_down;
     let mut fdown = start_down.unwrap_or(0);
     // ---- build the history -----------------------------------------------------------------------
@@ -137,7 +146,7 @@ fn data_twins(front: Front, reg: Reg, flip_bit: Option<usize>, rng: &mut Prng, c
         *fdown
     };
     // something to lose
-    if rng.chance(2, 3) {
+    if !adr_mode && rng.chance(2, 3) {
         let (lo, hi) = reg.inner_band();
         let f = (lo + rng.below(((hi - lo) / 100) as u64) as u32 * 100) / 100;
         let mut cmds = rx_timing_setup_req(rng.range(1, 9) as u8);
@@ -153,14 +162,17 @@ fn data_twins(front: Front, reg: Reg, flip_bit: Option<usize>, rng: &mut Prng, c
         pending.push("sticky");
         col.event("pending_sticky");
     }
-    if rng.chance(1, 2) {
+    if !adr_mode && rng.chance(1, 2) {
         let n = next_down(&mut fdown, &mut last);
         let fr = net.downlink(&Down { fcnt: n, confirmed: true, port: Some(7), payload: &[1, 2], ..Default::default() });
         steps.push(Step { data: vec![2], port: 2, confirmed: false, a: Script::rx2(fr.clone()), b: Script::rx2(fr), b_may_end_early: false, note: "confirmed-downlink".into() });
         pending.push("ack");
         col.event("pending_ack");
     }
-    if rng.chance(1, 2) {
+    if adr_mode {
+        pending.push("adr-high");
+        col.event("pending_adr");
+    } else if rng.chance(1, 2) {
         for _ in 0..rng.range(1, 4) {
             steps.push(silent("silent", rng));
         }
@@ -179,9 +191,12 @@ fn data_twins(front: Front, reg: Reg, flip_bit: Option<usize>, rng: &mut Prng, c
     let mut insertion_points: Vec<&str> = vec![];
     let mut auth_delivered = false;
     for k in 0..ninsert {
-        let kind = if flip_bit.is_some() { RK::BitFlip } else { *rng.pick(&RKS) };
+        let mut kind = if flip_bit.is_some() { RK::BitFlip } else { *rng.pick(&RKS) };
+        if adr_mode && matches!(kind, RK::Replay | RK::Stale) {
+            kind = RK::FarFuture;
+        }
         // rejected frame (some kinds need the authentic frame delivered first)
-        if matches!(kind, RK::Replay | RK::BitFlip | RK::Stale) && !auth_delivered {
+        if matches!(kind, RK::Replay | RK::Stale) && !auth_delivered {
             steps.push(Step { data: vec![3], port: 2, confirmed: false, a: Script::rx1(auth.clone()), b: Script::rx1(auth.clone()), b_may_end_early: false, note: "authentic".into() });
             auth_delivered = true;
         }
